@@ -6,10 +6,10 @@ use crate::{engine::*, fsdrive::*, fsgen::*, fstypes::Op};
 pub const OPTS: StepOpts = StepOpts { model_compare: true, api_view: false };
 
 pub fn cfg_small() -> GenCfg {
-    GenCfg { names: NAMES3, avoid_through_link: true, plain_spelling: false, wild: false }
+    GenCfg { names: NAMES3, avoid_through_link: true, plain_spelling: false, wild: false, handles: false }
 }
 pub fn cfg_adv() -> GenCfg {
-    GenCfg { names: NAMES_ADV, avoid_through_link: true, plain_spelling: false, wild: false }
+    GenCfg { names: NAMES_ADV, avoid_through_link: true, plain_spelling: false, wild: false, handles: false }
 }
 
 /// Check one generated history; on failure minimise the concrete ops and attach them
@@ -55,7 +55,7 @@ pub fn run(c: &Ctx) {
     c.set_rule("model-based histories: proptest-generated sequences of calls (every trait method incl. builders and handles) whose path selectors are resolved against the current reference-model state (existing dir/file/link, missing child, missing parent, below a file, root/cwd; 8 spellings: absolute, cwd-relative, './', doubled separators, 'x/../' detours, trailing '/.'), executed in lock step on Memfs and on a reference tree filesystem written from the trait docs; after every step the result (value or error kind) must be admitted by the model and the dump-derived tree (names, kinds, bytes, link targets, modes, owners, cwd) must equal the model's; failed single-target calls must leave the raw dump unchanged. Non-trivial = history with >=1 successful mutator and >=1 failing call, or a two-path op (copy/move/symlink); distinct by concrete op list.");
     c.assume("reference model rules: DESIGN.md appendix A; arguments traversing a link as an intermediate component are excluded by construction (counted)");
     c.assume("Memfs::verif_dump (hook H2) is a faithful copy of the internal indexes");
-    let n = c.tier.pick(6_000, 150_000);
+    let n = c.tier.pick(30_000, 300_000);
     let cfg = cfg_small();
     run_proptest("ops", 101, || history(40), n, |specs: &Vec<OpSpec>| {
         check_history(c, specs, &cfg, &OPTS, "ops")
